@@ -23,8 +23,10 @@ import (
 	"os"
 	"path"
 	"path/filepath"
+	"runtime"
 	"sort"
 	"strings"
+	"syscall"
 	"time"
 
 	"verif/explore"
@@ -774,6 +776,7 @@ type c07Live struct {
 	serveErr error
 	fdBefore int
 	lockN    int // lock-step frames that were answered
+	finished bool
 
 	// filled by finish
 	resp    []string
@@ -958,6 +961,43 @@ func c07Norm(f frame, root string) string {
 	return sb.String()
 }
 
+// c07Snapshot describes the served tree: path, mode, size, content (hashed when large; a mutated
+// request may create a huge sparse file), link target, link count.
+func c07Snapshot(root string) string {
+	var lines []string
+	filepath.Walk(root, func(p string, fi os.FileInfo, err error) error {
+		rel, _ := filepath.Rel(root, p)
+		if err != nil {
+			lines = append(lines, fmt.Sprintf("%s ERR %v", rel, err))
+			return nil
+		}
+		l := fmt.Sprintf("%s %v", rel, fi.Mode())
+		switch {
+		case fi.Mode().IsRegular():
+			l += fmt.Sprintf(" size=%d", fi.Size())
+			if fi.Size() <= 1<<16 {
+				b, _ := os.ReadFile(p)
+				l += fmt.Sprintf(" %q", b)
+			} else if f, err := os.Open(p); err == nil {
+				b := make([]byte, 4096)
+				n, _ := f.ReadAt(b, 0)
+				f.Close()
+				l += fmt.Sprintf(" first4k-sha1=%x", sha1.Sum(b[:n]))
+			}
+		case fi.Mode()&os.ModeSymlink != 0:
+			t, _ := os.Readlink(p)
+			l += " -> " + strings.ReplaceAll(t, root, "$ROOT")
+		}
+		if st, ok := fi.Sys().(*syscall.Stat_t); ok && !fi.IsDir() {
+			l += fmt.Sprintf(" nlink=%d", st.Nlink)
+		}
+		lines = append(lines, l)
+		return nil
+	})
+	sort.Strings(lines)
+	return strings.Join(lines, "\n")
+}
+
 // finish computes what the oracles look at, after the execution has ended without deadlock/panic.
 func (l *c07Live) finish() {
 	fs, rest := splitFrames(l.out.Total)
@@ -980,8 +1020,8 @@ func (l *c07Live) finish() {
 			}
 		}
 	} else {
-		l.state = strings.ReplaceAll(snapshotTree(l.root, false), l.root, "$ROOT")
-		if after := c07CountFDs(); after != l.fdBefore {
+		l.state = c07Snapshot(l.root)
+		if after := c07CountFDs(); after > l.fdBefore {
 			l.relBad = fmt.Sprintf("/proc/self/fd has %d entries after Serve returned, %d before the session: files left open", after, l.fdBefore)
 		}
 	}
@@ -1030,6 +1070,13 @@ func c07Exec(cfg c07Cfg, stream []byte, lock []c07Frame, bound int, firstBad str
 		for _, o := range lives {
 			o.cleanup()
 		}
+		if n := len(lives); n > 0 && !lives[n-1].finished && root != "" {
+			// the previous execution was aborted: let finalizers close what it left unreachable
+			for i := 0; i < 2; i++ {
+				runtime.GC()
+				runtime.Gosched()
+			}
+		}
 		lives = append(lives, l)
 		if root != "" {
 			c07SeedTree(root)
@@ -1043,6 +1090,7 @@ func c07Exec(cfg c07Cfg, stream []byte, lock []c07Frame, bound int, firstBad str
 				return v
 			}
 			l.finish()
+			l.finished = true
 			if first == nil {
 				first = l
 			}
